@@ -39,6 +39,7 @@ class Net(object):
     self.budget = 2000        # deliveries allowed until reset_budget(); exceeded -> overflow
     self.overflow = False
     self.delivered = 0
+    self.pad_to = 0           # cables pad shorter frames with zeros to this many bytes (60 = Ethernet minimum without FCS)
     self.wave_no = 0          # counts step() calls: hops with the same "wave" entered their switches before the control plane ran
     self.on_deliver = None    # optional callback(dpid, port, data) before a frame enters a switch
 
@@ -97,6 +98,26 @@ class Net(object):
   def set_cable(self, a, ap, up):
     self.cables[(a, ap)][2] = bool(up)
 
+  def add_port(self, dpid, port_no):
+    """Hot-plug a port: the switch announces it with PortStatus ADD (if it has a control channel)."""
+    sw = self.world.switches[dpid].sw
+    if port_no not in sw.ports:
+      sw.add_port(sw.generate_port(port_no))
+
+  def del_port(self, dpid, port_no):
+    sw = self.world.switches[dpid].sw
+    if port_no in sw.ports:
+      sw.delete_port(port_no)
+
+  def flap_port(self, dpid, port_no):
+    """The link state of a port changes; the switch reports it with PortStatus MODIFY."""
+    import pox.openflow.libopenflow_01 as of
+    sw = self.world.switches[dpid].sw
+    p = sw.ports.get(port_no)
+    if p is not None:
+      p.state ^= of.OFPPS_LINK_DOWN
+      sw.send_port_status(p, of.OFPPR_MODIFY)
+
   def reset_budget(self, n=2000):
     self.budget = n
     self.delivered = 0
@@ -128,6 +149,8 @@ class Net(object):
         self.host_rx.append((dpid, port, data))
       return
     if c[2] and c[0] not in self.dead:
+      if len(data) < self.pad_to:
+        data = data + bytes(self.pad_to - len(data))
       self.pending.append((c[0], c[1], data))
 
   def _deliver(self, dpid, port, data):
